@@ -24,6 +24,11 @@ Bounded exhaustive exploration of calc_rdm_unbalanced / calc_one_similarity:
   scale     the labelings (n <= 4) and balanced designs with the measurements multiplied by 1e-5 and 1e4,
             with condition / fold descriptors that are six-digit ints (100000+k) and floats
             1696300000.0+0.5k; judged by the same oracles with tolerances relative to the data scale
+  pscale    precision matrices multiplied by 1e-10, 1e-6, 1e6 - full SPD / diagonal / nearly diagonal (off-
+            diagonals 1e-3 of the diagonal; these two also unscaled) - with the data scaled inversely (values
+            stay O(1)) and not; mahalanobis / crossnobis with and without folds, and balanced designs; judged
+            by all oracles with tolerances relative to (data scale)^2 * (precision scale), plus the law
+            d(c*P) == c*d(P) for the full computation and h(c*P) == c*h(P) for the single-pair helper
   list      input forms crossed with the options: the dataset argument as single object / list of 1 / list or
             tuple of 2-3 datasets (every ordered pair of partitions of <= 4 observations into the same K
             conditions: different repetition counts, row orders, label orders, fold codings) x noise as
@@ -108,7 +113,8 @@ TOLERANCES = {'value vs reference / calc_rdm': TOL, 'dtype / layout invariance':
               'helper identity': 1e-8,
               'rule': '|a-b| <= tol * max(unit, |a|, |b|); unit = c^2 for data multiplied by c (euclidean, '
                       'mahalanobis, crossnobis), 1 for correlation, min(1, c^2) for poisson kernels; c = 1 '
-                      'everywhere outside the scale family',
+                      'everywhere outside the scale families; times the precision scale for mahalanobis / crossnobis '
+                      'with a precision matrix',
               'poisson vs calc_rdm': 'additionally 64 ulp of the largest term |u log u| of calc_rdm\'s formula '
                                      '(its rounding error does not shrink with the dissimilarity)',
               'arguments / sequences': 'bit-identical'}
@@ -128,6 +134,9 @@ BOUNDS = {
                            '(complete data; one NaN cell for n<=4, without the two precision calls)',
               'scales': 'n in 1..4, every partition, P=3: data x 1e-5 / x 1e4, labels and folds 100000+k and '
                         '1696300000.0+0.5k (alone and with x 1e4); 5 masks; all method configurations; 5 balanced designs',
+              'precision_scales': 'n in 1..4, every partition, P=3; forms full / diagonal / nearly diagonal x scales '
+                                  '1e-10, 1e-6, 1e6 x data scaled inversely or not; mahalanobis / crossnobis, with and '
+                                  'without folds, both weightings; 4 balanced designs against calc_rdm',
               'input_forms': 'K in {2,3} conditions, member datasets = every partition of K..4 observations into K '
                              'conditions: every single dataset (as object, list of 1, tuple), every ordered pair, one '
                              'triple per partition; 6 (container, noise form) combinations x cv_descriptor x '
@@ -276,6 +285,28 @@ def _prec(seed, n_ch, which=0):
     return _PREC_CACHE[key].copy()
 
 
+PSCALES = (1e-10, 1e-6, 1e6)
+
+
+def _prec_form(seed, n_ch, form, pscale=1.0):
+    """the precision matrix of a case: 'spd' full, 'diag' its diagonal, 'near' nearly diagonal (off-diagonal
+    entries 1e-3 of the geometric mean of the two diagonal entries, signs of the full matrix), times pscale"""
+    if form == 'none':
+        return None
+    full = _prec(seed, n_ch)
+    if form == 'spd':
+        out = full
+    elif form == 'diag':
+        out = np.diag(np.diag(full))
+    elif form == 'near':
+        d = np.sqrt(np.diag(full))
+        out = 1e-3 * np.sign(full) * np.outer(d, d)
+        np.fill_diagonal(out, np.diag(full))
+    else:
+        raise ValueError(form)
+    return out * float(pscale) if pscale != 1.0 else out
+
+
 _MASK_CACHE = {}
 
 
@@ -323,7 +354,7 @@ def _cls(case, crossval):
         return 'weighting=equal,no-fold'
     if method == 'correlation' and nan:
         return 'method=correlation,missing-channel'
-    if case['prec'] == 'spd' and nan and method in ('mahalanobis', 'crossnobis'):
+    if case['prec'] != 'none' and nan and method in ('mahalanobis', 'crossnobis'):
         return 'precision,missing-channel'
     return 'method=%s,%s' % (method, 'missing-channel' if nan else 'complete')
 
@@ -333,13 +364,13 @@ def _helper_cls(case):
     nan = bool(case['mask'])
     if method == 'correlation' and nan:
         return 'method=correlation,missing-channel'
-    if case['prec'] == 'spd' and nan and method in ('mahalanobis', 'crossnobis'):
+    if case['prec'] != 'none' and nan and method in ('mahalanobis', 'crossnobis'):
         return 'precision,missing-channel'
     return 'method=%s,%s' % (method, 'missing-channel' if nan else 'complete')
 
 
 def _oob_class(case):
-    return case['prec'] == 'spd' and bool(case['mask']) and case['method'] in ('mahalanobis', 'crossnobis')
+    return case['prec'] != 'none' and bool(case['mask']) and case['method'] in ('mahalanobis', 'crossnobis')
 
 
 # ----------------------------------------------------------------------------- scale-relative comparison
@@ -353,6 +384,8 @@ def _unit(case):
         return 1.0
     if case['method'] in ('poisson', 'poisson_cv'):
         return min(1.0, c * c)
+    if case['method'] in ('mahalanobis', 'crossnobis') and case.get('prec', 'none') != 'none':
+        return c * c * float(case.get('pscale') or 1.0)        # linear in the precision
     return c * c
 
 
@@ -597,6 +630,10 @@ def _helper(ctx, case, X, rows, lab_eff, folds, want, prec, crossval, full):
     dss, cvs = [], []
     hval = {}
     noise_h = None if prec is None else prec.copy()        # one caller-owned array for all helper calls
+    pscale = float(case.get('pscale') or 1.0)
+    noise_1 = None                                          # the unscaled precision, for the law h(c*P) == c*h(P)
+    if pscale != 1.0 and prec is not None and method in ('mahalanobis', 'crossnobis'):
+        noise_1 = prec / pscale
     try:
         for g in groups:
             dss.append(Dataset(X[g]))
@@ -619,6 +656,13 @@ def _helper(ctx, case, X, rows, lab_eff, folds, want, prec, crossval, full):
                                              noise=noise_h, weighting=weighting,
                                              prior_lambda=prior[0], prior_weight=prior[1])
                 ctx.count('helper_calls')
+                if noise_1 is not None:
+                    hv1, _ = calc_one_similarity(dss[a], dss[b], ca, cb, method=method, noise=noise_1,
+                                                 weighting=weighting)
+                    if not _close(hv, hv1 * pscale, TOL, unit):
+                        ctx.fail('calc_one_similarity|precision-scale|violates-h(cP)=c*h(P)', dict(case, pair=[a, b]),
+                                 'conditions #%d,#%d: precision P/c gives %.12g, P gives %.12g, c = %g' % (
+                                     a, b, hv1, hv, pscale))
                 for nm, now, was in (('data_i.measurements', dss[a].measurements, ds_bytes[a]),
                                      ('data_j.measurements', dss[b].measurements, ds_bytes[b]),
                                      ('cv_desc_i', ca, cv_bytes[a]), ('cv_desc_j', cb, cb_bytes),
@@ -1046,7 +1090,8 @@ def _run_structured(case, ctx):
     rows = [list(r) for r in base]
     for c in mask:
         rows[c // n_ch][c % n_ch] = ref.NAN
-    prec = _prec(ctx.seed, n_ch) if case['prec'] == 'spd' else None
+    pscale = float(case.get('pscale') or 1.0)
+    prec = _prec_form(ctx.seed, n_ch, case['prec'], pscale)
     precl = None if prec is None else prec.tolist()
     try:
         want = ref.unbalanced(rows, lab_eff, folds, method, case['weighting'], precl, prior[0], prior[1])
@@ -1091,6 +1136,15 @@ def _run_structured(case, ctx):
     bk = _balanced_kind(case, lab_eff, folds, has_nan)
     if bk is not None and len(want['order']) >= 2:
         _vs_calc_rdm(ctx, case, X, labels, folds, prec, got, bk, _defined(want))
+    # ---- the estimate is linear in the precision: d(c*P) == c * d(P)
+    if pscale != 1.0 and prec is not None and method in ('mahalanobis', 'crossnobis'):
+        sub = dict(case, oracle='precision-scaling-law')
+        g1 = _lib_full(ctx, sub, X.copy(), labels, folds, _prec_form(ctx.seed, n_ch, case['prec']), cls)
+        ctx.case(sub, nontrivial=finite > 0)
+        if g1 is not None and not _same_result(got, (g1[0], g1[1] * pscale), TOL, _defined(want), _unit(case)):
+            ctx.fail('calc_rdm_unbalanced|precision-scale|violates-d(cP)=c*d(P)', sub,
+                     'precision P gives %r, %g * P gives %r (expected %r)' % (
+                         g1[1].tolist(), pscale, got[1].tolist(), (g1[1] * pscale).tolist()))
     # ---- a channel missing everywhere == that channel deleted
     ch = _whole_channel(mask, n, n_ch) if has_nan else None
     if ch is not None and n_ch >= 2:
@@ -1237,6 +1291,12 @@ def shards(tier, seed):
             for p in range(0, combi.BELL[5], 4):
                 out.append({'kind': 'scale', 'ns': [5], 'P': n_ch, 'parts': [p, min(combi.BELL[5], p + 4)]})
         out.append({'kind': 'scalebal', 'P': n_ch})
+        out.append({'kind': 'pscale', 'ns': [1, 2, 3], 'P': n_ch})
+        for p in range(0, combi.BELL[4], 5):
+            out.append({'kind': 'pscale', 'ns': [4], 'P': n_ch, 'parts': [p, min(combi.BELL[4], p + 5)]})
+        if th:
+            for p in range(0, combi.BELL[5], 13):
+                out.append({'kind': 'pscale', 'ns': [5], 'P': n_ch, 'parts': [p, min(combi.BELL[5], p + 13)]})
     # input forms: single object / list / tuple of datasets x noise forms x cv_descriptor x descriptor
     for K in (2, 3):
         out.append({'kind': 'list', 'K': K, 'P': 3, 'len': 1})
@@ -1425,6 +1485,36 @@ def run_shard(shard, ctx):
                                               'variants': _variants(0, has_nan, idx, ctx.tier),
                                               'design': {'type': 'lab', 'part': parts[pidx], 'naming': naming,
                                                          'fold': fold}}, ctx)
+    elif kind == 'pscale':
+        # precision matrices at scales 1e-10, 1e-6, 1e6 (full / diagonal / nearly diagonal), with the data
+        # scaled inversely (values stay O(1)) and not; diagonal / nearly diagonal also at scale 1
+        combos = [(form, ps, ds) for form in ('spd', 'diag', 'near') for ps in PSCALES
+                  for ds in (1.0, ps ** -0.5)] + [('diag', 1.0, 1.0), ('near', 1.0, 1.0)]
+        idx = 0
+        for n in shard['ns']:
+            parts = _partitions(n)
+            lo, hi = shard.get('parts') or [0, len(parts)]
+            for pidx in range(lo, hi):
+                for form, ps, dscale in combos:
+                    for method in ('mahalanobis', 'crossnobis'):
+                        for fold in (None, 'occ'):
+                            for weighting in W2:
+                                idx += 1
+                                run_case({'kind': 'lab', 'P': n_ch, 'fill': 0, 'mask': [], 'method': method,
+                                          'weighting': weighting, 'prec': form, 'pscale': ps, 'scale': dscale,
+                                          'variants': _variants(0, False, idx, ctx.tier),
+                                          'design': {'type': 'lab', 'part': parts[pidx],
+                                                     'naming': 'desc' if idx % 2 else 'str', 'fold': fold}}, ctx)
+        if shard['ns'][0] == 1:
+            for K, M in ((2, 2), (3, 2), (2, 3), (3, 3)):
+                for form, ps, dscale in combos:
+                    for weighting in W2:
+                        idx += 1
+                        run_case({'kind': 'bal', 'P': n_ch, 'fill': 0, 'mask': [], 'method': 'crossnobis',
+                                  'weighting': weighting, 'prec': form, 'pscale': ps, 'scale': dscale,
+                                  'variants': _variants(0, False, idx, ctx.tier),
+                                  'design': {'type': 'bal', 'K': K, 'M': M, 'R': 1, 'order': 'mix',
+                                             'naming': 'desc', 'foldnames': 'int'}}, ctx)
     elif kind == 'scalebal':
         idx = 0
         for K, M, R in ((2, 2, 1), (3, 2, 1), (2, 3, 1), (3, 3, 1), (2, 2, 2)):
